@@ -92,6 +92,16 @@ def check_deriv(case):
                 key=key + (":order%d" % order),
                 msg="channel %d axis %d" % (c, d),
             )
+    # homogeneity: differentiation is linear - a field of amplitude 1e-18 or 1e12 is differentiated just the same (no
+    # absolute "noise floor")
+    for cs in (1e-18, 1e12):
+        ok, dus = res.lib("derivative", ex.derivative, jnp.asarray(cs * u), L, order=order, key=key)
+        if ok:
+            dus = np.asarray(dus)
+            dus = dus[None] if C == 1 else dus
+            ref_ = float(np.max(np.abs(du))) + 1e-300
+            amp_all = max(sum(abs(m[1]) for m in ch) for ch in case["state"]["modes"])
+            res.claim("derivative:homogeneous", float(np.max(np.abs(dus / cs - du))), 1e-9 * ref_ + 1e-11 * amp_all * sym, key=key + ":homogeneity", msg="scale %g" % cs)
     if order == 1:
         # default order argument
         d1 = np.asarray(ex.derivative(jnp.asarray(u), L))
